@@ -158,9 +158,15 @@ pub fn append_rule(rule: Arc<Rule>) -> bool {
     // `load_rules_of_resource` use, so that a concurrent reload cannot deadlock with us
     let mut breaker_map = BREAKER_MAP.write().unwrap();
     let breaker_rules = BREAKER_RULES.read().unwrap();
+    let rules_of_res = match breaker_rules.get(&rule.resource) {
+        Some(rules_of_res) => rules_of_res,
+        // nothing to build: the rule was invalid and the resource has no other rule,
+        // or the resource's rules were cleared concurrently
+        None => return true,
+    };
     let new_tcs_of_res = build_resource_circuit_breaker(
         &rule.resource,
-        breaker_rules.get(&rule.resource).unwrap(),
+        rules_of_res,
         breaker_map
             .get_mut(&rule.resource)
             .unwrap_or(&mut placeholder),
